@@ -83,7 +83,7 @@ def _catalogue() -> list[dict]:
     for k in kf:
         if k.get("status") == "fixed" and (k["commit"], k["property"]) not in seen:
             seen.add((k["commit"], k["property"]))
-            cat.append({"id": f"revert-{k['commit']}-{k['property']}", "property": k["property"], "kind": "revert-fix", "commit": k["commit"], "expected": "killed"})
+            cat.append({"id": f"revert-{k['commit']}-{k['property']}", "property": k["property"], "kind": "revert-fix", "commit": k["commit"], "expected": "killed", "check": k.get("selftest_check_args", [])})
     for meta in sorted(glob.glob(os.path.join(VERIF, "seeded", "*", "meta.json"))):
         with open(meta) as f:
             m = json.load(f)
